@@ -227,6 +227,8 @@ def run(ctx):
     try:
         _run_structural(ctx)
     except (AnalysisError, Exception) as exc:
+        if isinstance(exc, (NameError, ImportError, UnboundLocalError)):
+            raise       # a defect of the checker itself, never a reason to fall back
         if wit[2] is not None:
             raise  # neither the structural rules nor the evaluation can follow this code
         r0 = ctx.rule("R0", "the structural rules cannot follow this shape of the task coroutine; decided by evaluation under fault and cancellation injection")
